@@ -300,25 +300,15 @@ impl Property for C08 {
     }
 
     fn check(sc: &Sc, ctx: &mut Ctx, rep: &mut Report) {
-        let mut root = ctx.scratch.join("A");
-        let _ = std::env::set_current_dir(&ctx.scratch);
-        if let Some(len) = sc.find.long_cwd {
-            // everything below happens from inside the long directory, with relative names
-            if let Err(e) = crate::find::enter_long_cwd(ctx, len) {
-                crate::find::leave_long_cwd(ctx);
-                rep.fail("C08.HARNESS-tree-build", format!("cannot enter a working directory of {len} bytes: {e}"));
+        let root = match crate::find::place_tree(&sc.find, ctx) {
+            Ok(r) => r,
+            Err(e) => {
+                rep.fail("C08.HARNESS-tree-build", e);
                 return;
             }
-            root = std::path::PathBuf::from(".");
+        };
+        if let Some(len) = sc.find.long_cwd {
             rep.probe(if len + 300 > 4096 { "working_directory_path_beyond_path_max" } else { "working_directory_path_thousands_of_bytes" });
-        } else {
-            crate::sys::wipe(&root);
-            std::fs::create_dir_all(&root).expect("scratch root");
-        }
-        if let Err(e) = tree::build(&root, &sc.find.tree) {
-            crate::find::leave_long_cwd(ctx);
-            rep.fail("C08.HARNESS-tree-build", format!("cannot build tree: {e}"));
-            return;
         }
         let obs = run_find_prebuilt(&sc.find, ctx, root);
         if sc.find.long_cwd.is_some() {
@@ -326,27 +316,9 @@ impl Property for C08 {
         }
         if sc.find.real_children {
             rep.probe("real_child_processes");
-            if let Some(m) = &obs.real_mismatch {
-                rep.fail("C08.real-children-differ", format!("argv {:?}: {m}", &sc.find.argv[..sc.find.argv.len().min(12)]));
+            if let Some((class, detail)) = crate::find::judge_real_children(&sc.find, &obs) {
+                rep.fail(format!("C08.{class}"), detail);
                 return;
-            }
-            // the children are there and executable: an invocation that could not be started
-            // is find's own doing (a command line or a working directory the system refuses)
-            for ev in &obs.log.events {
-                if let Event::Spawn { outcome: Outcome::SpawnErr(e), cwd, argv, .. } = ev {
-                    rep.fail(
-                        "C08.invocation-could-not-be-started",
-                        format!(
-                            "argv {:?} (working directory of {:?} bytes): an invocation with {} arguments and working directory {:?} could not be started: {}",
-                            &sc.find.argv[..sc.find.argv.len().min(12)],
-                            sc.find.long_cwd,
-                            argv.len(),
-                            cwd.as_ref().map(|c| crate::sys::show(&c.0[..c.0.len().min(80)])),
-                            std::io::Error::from_raw_os_error(*e)
-                        ),
-                    );
-                    return;
-                }
             }
         }
         rep.executions += 1;
